@@ -21,7 +21,7 @@ EntryPoints(w, e) ==
   IF e.all THEN AllPoints(w)
   ELSE UNION {{pr} \X Range(e.pp[pr]) : pr \in Protos}
 
-PeerDesc(w, p) == IF IsW(p) THEN WKey(WL(w, p)) ELSE <<"addr", p[2]>>
+PeerDesc(w, p) == IF IsW(p) THEN WKey(WL(w, p)) ELSE "addr:" \o ToString(p[2])
 
 (* 32-bit addresses travel as <<high16, low16>>                            *)
 ALt(a, b)  == a[1] < b[1] \/ (a[1] = b[1] /\ a[2] < b[2])
@@ -107,5 +107,36 @@ ListMismatches(w, obs) ==
          ELSE WellFormedMismatches(obs)
               \cup SemanticMismatches(w, obs, ReportPairs(w))
               \cup PeerSetMismatches(w, obs)
+
+---------------------------------------------------------------------------
+(* C03: eval.  One aggregated query q = [s, d, same, r, msg]: s, d are     *)
+(* <<"w", i, pod>> / <<"a", class, 0>>; r[k][n] is the reply for protocol  *)
+(* ProtoSeq[k] and model port n: 0 false, 1 true, 2 error, 3 inconsistent  *)
+(* within one port chunk, -1 not asked.                                    *)
+ProtoSeq == <<"TCP", "UDP", "SCTP">>
+QPeer(x) == <<x[1], x[2]>>
+
+(* listOK: the `list` run of the same world succeeded; lconn(p, q): what it reported *)
+EvalMismatches(w, eobs, listOK, lconn(_, _)) ==
+  IF eobs.outcome = "panic" THEN {<<"panic", eobs.errMsg>>}
+  ELSE IF eobs.outcome = "error"
+  THEN (IF listOK THEN {<<"C03-eval-engine-fails-where-list-succeeds", eobs.errMsg>>} ELSE {})
+  ELSE
+  LET bad == {<<i, k, n>> \in (DOMAIN eobs.q) \X (1..3) \X Ports(w) :
+                LET q == eobs.q[i]
+                    src == QPeer(q.s)
+                    dst == QPeer(q.d)
+                    got == q.r[k][n]
+                    pt == <<ProtoSeq[k], n>>
+                    exp == q.same \/ pt \in Conn(w, src, dst)
+                IN /\ got # -1
+                   /\ \/ got = 3
+                      \/ (got = 2 /\ listOK)                       \* eval must answer where list can
+                      \/ (got \in {0, 1} /\ (got = 1) # exp)       \* the semantics
+                      \/ (got \in {0, 1} /\ listOK /\ src # dst   \* ... and the list result of the same run
+                            /\ (got = 1) # (pt \in lconn(src, dst)))}
+  IN {<<"C03-eval", eobs.via, eobs.q[b[1]].s, eobs.q[b[1]].d, ProtoSeq[b[2]], b[3],
+        "reply", eobs.q[b[1]].r[b[2]][b[3]], "expected", eobs.q[b[1]].same \/ <<ProtoSeq[b[2]], b[3]>> \in Conn(w, QPeer(eobs.q[b[1]].s), QPeer(eobs.q[b[1]].d)),
+        eobs.q[b[1]].msg>> : b \in bad}
 
 =============================================================================
